@@ -494,7 +494,11 @@ class Lexer(object):
                         e(environment.block_end_string),
                         e(environment.block_end_string)
                     )] + [
+                        # the auto-indent marker exists for blocks and variables only; '{#*' is an
+                        # ordinary comment that starts with a star and must keep the blanks before it
                         r'(?P<%s_begin>\s*%s\-|[ \t]*%s\*|%s)' % (n, r, r, prefix_re.get(n,r))
+                        if n in ('block', 'variable') else
+                        r'(?P<%s_begin>\s*%s\-|%s)' % (n, r, prefix_re.get(n,r))
                         for n, r in root_tag_rules
                     ])), (TOKEN_DATA, '#bygroup'), '#bygroup'),
                 # data
